@@ -38,6 +38,11 @@ def cases(tier):
         out.append(dict(kind='lattice', tier=tier, grid='r', step=str(st), k0=1, k1=2000))
     for st in fine:
         out.append(dict(kind='lattice', tier=tier, grid='r', step=str(st), k0=2001 if st in steps3 else 1, k1=19999))
+    # steps that need 7 decimals (0.0529177 A = 1 bohr/10, ...): quotients a rational approximation with a small denominator gets wrong
+    fine7 = ['0.0529177', '0.0502655', '0.1234567', '0.0100001', '0.3141593', '0.0000001', '0.0000123', '0.2000001', '0.0999999', '0.0033333']
+    for st in fine7:
+        out.append(dict(kind='lattice', tier=tier, grid='r', step=st, k0=1, k1=3000 if tier == 'quick' else 12000))
+        out.append(dict(kind='lattice', tier=tier, grid='rho', step=st, k0=1, k1=1500 if tier == 'quick' else 6000))
     for st in steps3[::2]:
         out.append(dict(kind='lattice', tier=tier, grid='rho', step=str(st), k0=1, k1=1000))
     for st in fine[::2]:
@@ -91,6 +96,9 @@ def cases(tier):
                     nn = 4 * n
                     cut = dec(Decimal(st) * (nn - 1))
                 out.append(dict(kind='e2e', target=tgt, step=st, n=nn, cutoff=cut, combo=combo))
+                if (st, n) in (('0.1', 4), ('0.05', 13), ('0.2', 16)):
+                    # the same through the potable command line into an OUTPUT_FILE that already holds a longer, older tabulation
+                    out.append(dict(kind='e2e', target=tgt, step=st, n=nn, cutoff=cut, combo=combo, via='potable'))
     # (vi-b) row-count sweep: cutoff + nr on a (cutoff, nr) lattice for every target (the step is then not a short decimal)
     cuts = [Decimal(k) / 10 for k in (range(1, 151, 7) if tier == 'quick' else range(1, 151))] + [Decimal(10), Decimal(12)]
     ns = list(range(3, 41)) + [107, 120, 651]
@@ -284,7 +292,16 @@ def run_e2e(case):
         ini += '[EAM-Embed]\nA : as.polynomial 1 2 0.25\n[EAM-Density]\n%s : as.polynomial 1 0.5 0.125\n[Species]\nA.atomic_number : 1\nA.atomic_mass : 1.0\n' % ('A->A' if fs else 'A')
     if tgt == 'eam_adp':
         ini += '[EAM-ADP-Dipole]\nA-A : as.polynomial 1 2\n[EAM-ADP-Quadrupole]\nA-A : as.polynomial 1 3\n'
-    data = R.write_tabulation(R.config_read(ini))
+    if case.get('via') == 'potable':
+        res = R.potable(ini, binary=tgt.startswith('excel'), prefill=True)
+        if res.exc is not None:
+            raise res.exc
+        if res.status != 0:
+            V(viol, 'e2e-potable-failed', 'potable %s %s: exit status %r %s' % (tgt, combo, res.status, res.stderr[-200:]))
+            return viol, 1
+        data = res.out_bytes
+    else:
+        data = R.write_tabulation(R.config_read(ini))
     cutf = float(cut)
     stf = float(st) if st is not None else cutf / (n - 1)
     if tgt == 'DLPOLY':
